@@ -32,6 +32,7 @@ import (
 type Op struct {
 	K   string `json:"k"` // ticket | login | affirm | cached | destroy | getkdcs | resolve | diag | print
 	SPN int    `json:"spn,omitempty"`
+	Ms  int    `json:"ms,omitempty"` // hammer: how long to keep going
 }
 
 // Scenario is one client shared by goroutines.
@@ -269,6 +270,19 @@ func run(c Scenario) evid.Verdict {
 							mu.Unlock()
 						}
 					}
+				case "hammer":
+					// requests for services not asked for before, back to back, for op.Ms milliseconds: each needs the
+					// TGT and its key, and with short-lived TGTs every goroutine renews the TGT in place when it runs low
+					until := time.Now().Add(time.Duration(op.Ms) * time.Millisecond)
+					for k := 0; k < 480 && r.err == nil && time.Now().Before(until); k++ {
+						spn := 5 + (op.SPN+k)%c10.ExtraSPNs
+						t, key, err := cl.GetServiceTicket(c.Spec.SPN(spn))
+						if err == nil {
+							mu.Lock()
+							results = append(results, result{g: g, op: Op{K: "ticket", SPN: spn}, tkt: t, key: key, ok: true, t0: r.t0, t1: time.Now()})
+							mu.Unlock()
+						}
+					}
 				case "cached":
 					r.tkt, r.key, r.ok = cl.GetCachedTicket(c.Spec.SPN(op.SPN))
 				case "login":
@@ -456,22 +470,24 @@ func drawCase(t *rapid.T, long bool) Case {
 	return c
 }
 
-// drawStorm draws a scenario in which one goroutine logs in again and again while the others request tickets for
-// services not asked for before, so that reads of (TGT, session key) keep meeting replacements of the pair.
+// drawStorm draws a scenario in which every goroutine requests tickets for services not asked for before, back to
+// back for two seconds, while the TGT lives about a second and is renewable: whenever it runs low every goroutine
+// renews it (the session is updated in place) while the others read the (TGT, session key) pair. One goroutine
+// may instead log in again and again (the session is replaced).
 func drawStorm(t *rapid.T) Case {
 	s := c10.Spec{Seed: rapid.Uint64Range(1, 1<<40).Draw(t, "seed"), Cred: rapid.SampledFrom([]string{"password", "keytab"}).Draw(t, "cred"),
 		ETypes:  []int32{rapid.SampledFrom([]int32{ref.AES128SHA1, ref.AES256SHA1, ref.RC4, ref.AES128SHA2}).Draw(t, "etype")},
-		Preauth: rapid.SampledFrom([]string{"none", "required"}).Draw(t, "preauth"), NoAddr: true, KDCs: rapid.IntRange(1, 2).Draw(t, "kdcs"), Via: "referral"}
+		Preauth: rapid.SampledFrom([]string{"none", "required"}).Draw(t, "preauth"), NoAddr: true, KDCs: rapid.IntRange(1, 2).Draw(t, "kdcs"), Via: "referral", RenewLife: "10m"}
+	for i := 0; i < 60; i++ {
+		s.TGTLives = append(s.TGTLives, c10.LifeSpec{StartMs: 0, EndMs: int64(rapid.SampledFrom([]int{1300, 2300}).Draw(t, "tgtlife")), RenewMs: 60000})
+	}
 	c := Case{Scenario: Scenario{Spec: s}}
-	ng := rapid.SampledFrom([]int{3, 4, 8}).Draw(t, "goroutines")
+	ng := rapid.SampledFrom([]int{4, 8}).Draw(t, "goroutines")
+	relogin := rapid.IntRange(0, 2).Draw(t, "relogin") == 0
 	for g := 0; g < ng; g++ {
-		var prog []Op
-		if g == 0 {
-			prog = append(prog, Op{K: "logins", SPN: rapid.IntRange(20, 40).Draw(t, "logins")})
-		} else {
-			for i, n := 0, rapid.IntRange(2, 4).Draw(t, "bursts"); i < n; i++ {
-				prog = append(prog, Op{K: "burst", SPN: rapid.IntRange(0, c10.ExtraSPNs-1).Draw(t, "burstbase")})
-			}
+		prog := []Op{{K: "hammer", SPN: g * 480, Ms: 2000}}
+		if g == 0 && relogin {
+			prog = []Op{{K: "logins", SPN: rapid.IntRange(10, 30).Draw(t, "logins")}}
 		}
 		c.Progs = append(c.Progs, prog)
 		c.StartUs = append(c.StartUs, rapid.SampledFrom([]int{0, 0, 50, 500}).Draw(t, "startoffset"))
@@ -496,7 +512,7 @@ func TestProp(t *testing.T) {
 	}
 	r.Regress()
 	r.Assume("free-running execution under the Go race detector samples schedules; it cannot show the absence of races; a race is attributed to the scenario during which the detector reported it and keyed by the innermost gokrb5 functions of its two stacks; the detector reports each racing pair once per process")
-	r.Rule("scenario: 2-16 goroutines sharing one client and one Config, each running 1-5 operations from {GetServiceTicket (SPN pool 1-4), GetCachedTicket, Login, AffirmLogin, GetKDCs, ResolveRealm, Diagnostics, Print, Destroy (at most one, last)} with start offsets 0-5 ms (plus login storms: one goroutine logging in 20-40 times back to back while 2-7 others request tickets for 20-40 services not asked for before), 1-3 configured KDCs, TGT lifetimes of 1.3-2.3 s so that background renewals overlap; oracle: no data race in gokrb5, every returned (ticket,key) pair issued together for the requested SPN, Config unchanged, GetKDCs a permutation of the configured servers, no deadlock (60 s watchdog); non-trivial = >= 2 goroutines measurably overlapped inside gokrb5 calls")
+	r.Rule("scenario: 2-16 goroutines sharing one client and one Config, each running 1-5 operations from {GetServiceTicket (SPN pool 1-4), GetCachedTicket, Login, AffirmLogin, GetKDCs, ResolveRealm, Diagnostics, Print, Destroy (at most one, last)} with start offsets 0-5 ms (plus renewal storms: 4 or 8 goroutines requesting tickets for services not asked for before, back to back for two seconds, under renewable TGTs that live about one second, so that the session is renewed in place again and again while it is read; one goroutine may log in 10-30 times instead), 1-3 configured KDCs, TGT lifetimes of 1.3-2.3 s so that background renewals overlap; oracle: no data race in gokrb5, every returned (ticket,key) pair issued together for the requested SPN, Config unchanged, GetKDCs a permutation of the configured servers, no deadlock (60 s watchdog); non-trivial = >= 2 goroutines measurably overlapped inside gokrb5 calls")
 	var cases []Case
 	r.Rapid("scenario-gen", r.N(220, 6000), func(t *rapid.T) { cases = append(cases, drawCase(t, false)) })
 	// long scenarios (waits of up to a second, renewable 1.3-2.3 s TGTs so that background renewals happen while the
@@ -510,9 +526,9 @@ func TestProp(t *testing.T) {
 		}
 		cases = append(cases, b)
 	}
-	// login storms: the (TGT, session key) pair is replaced dozens of times while other goroutines read it
+	// renewal storms: the (TGT, session key) pair is renewed in place again and again while other goroutines read it
 	storm := map[int]bool{}
-	r.Rapid("storm-gen", r.N(10, 300), func(t *rapid.T) { storm[len(cases)] = true; cases = append(cases, drawStorm(t)) })
+	r.Rapid("storm-gen", r.N(6, 150), func(t *rapid.T) { storm[len(cases)] = true; cases = append(cases, drawStorm(t)) })
 	// scenarios run one at a time so that a race report can be attributed to its scenario
 	for i, c := range cases {
 		ng := len(c.Progs)
@@ -526,7 +542,7 @@ func TestProp(t *testing.T) {
 		}
 		kind := "short"
 		if storm[i] {
-			kind = "login-storm"
+			kind = "renewal-storm"
 		}
 		if len(c.Also) > 0 {
 			kind = "long-batch-of-12"
